@@ -10,6 +10,7 @@ import MpirProofs.Lemmas.AliasRootrem
 import MpirProofs.Lemmas.AliasMul
 import MpirProofs.Lemmas.AliasGcdext
 import MpirProofs.Props.C07_gcdextdc2
+import MpirProofs.Lemmas.AliasMpfDiv
 namespace Mpir.AliasMem
 open Mpir
 
@@ -165,5 +166,44 @@ example : lookG (gcdextV { tBeforeS := false } 0 (some 1) (some 2) 1 3 (ofInts [
     .ok [(3, 1, 0), (gxS, 3, 1), (1955453703669360966019249215, 2, 9), (gxB, 2, 3)] := by decide +kernel
 example : lookG (gcdextV { copyOperands := false } 0 (some 1) (some 2) 3 3 (ofInts [0, 0, 0, gxA])) 4 =
     .error "ub:mpn_gcdext operands overlap" := by decide +kernel
+
+/-! ## mpf with raw-precision operands: mpf_div -/
+
+def showF (r : R FSt) : Except String (List Mpf.F) := r.map fun s => (List.range 3).map s.F
+def errOfF (r : R FSt) : String := match r with | .error e => e | .ok _ => "ok"
+
+/-- mpf_div (mpf/div.c) on the pointer-level mpf model (Mpir/Model/AliasMpf.lean: header {prec, size, exp, ptr}, a block that is
+    never reallocated, `PREC + 1 ≤` block length; an operand may have MORE than PREC + 1 limbs — the state mpf_set_prec_raw
+    leaves behind), every choice of r, u, v (r = u, r = v, u = v, all the same variable), v ≠ 0: the call succeeds, r holds
+    EXACTLY size, exponent and limbs of the bit-exact model `Mpf.div (PREC r) u v` (C13) applied to the operands as they were
+    before the call, every other variable (header and limbs) is untouched, the invariant holds again.  What the C does for it:
+    the dividend is copied to TMP space when it must be padded OR when `rp == up` (:96) — also when it is chopped (`up += chop`,
+    :98-100: with r = u the quotient is written over the low end of the very block whose high end is the dividend); the divisor is
+    copied when `rp == vp` (:131-135); sizes, exponents and pointers are fetched before anything is stored (:68-90). -/
+theorem mpf_div_ptr_spec {s : FSt} (h : FInv s) {r u v : Nat} (hr : r < s.st.nv) (hu : u < s.st.nv) (hv : v < s.st.nv)
+    (hv0 : s.st.size v ≠ 0) :
+    ∃ s' f, mpf_div r u v s = .ok s' ∧ Mpf.div (s.prec r) (s.F u) (s.F v) = .ok f ∧
+      FInv s' ∧ s'.st.nv = s.st.nv ∧ s'.F r = f ∧ ∀ i, i < s.st.nv → i ≠ r → s'.F i = s.F i :=
+  mpf_div_ok h hr hu hv hv0
+
+theorem mpf_div_by_zero (s : FSt) (r u v : Nat) (hv0 : s.st.size v = 0) : mpf_div r u v s = .error "div0" := by
+  unfold mpf_div mpf_divV
+  simp only [bind, Except.bind]
+  rw [if_pos (by omega)]; rfl
+
+/-- variable 0: precision 2 but 5 limbs (raw precision); variable 1: precision 3, two limbs, negative; variable 2: zero -/
+def fs1 : FSt := ofFs [⟨2, 5, 3, [1, 2, 3, 4, 5]⟩, ⟨3, -2, 1, [9, 11]⟩, ⟨2, 0, 0, []⟩]
+-- r = u in place on the long operand: the same answer as into the separate variable 2, and as the bit-exact model
+example : (showF (mpf_div 0 0 1 fs1)).map (·.getD 0 default) = (showF (mpf_div 2 0 1 fs1)).map (·.getD 2 default) := by decide +kernel
+example : (showF (mpf_div 0 0 1 fs1)).map (·.getD 0 default) = .ok (match Mpf.div 2 (fs1.F 0) (fs1.F 1) with | .ok f => f | _ => default) := by
+  decide +kernel
+-- r = v (destination precision 3), and all three the same variable (u / u = 1)
+example : (showF (mpf_div 1 0 1 fs1)).map (·.getD 1 default) = .ok (match Mpf.div 3 (fs1.F 0) (fs1.F 1) with | .ok f => f | _ => default) := by
+  decide +kernel
+example : showF (mpf_div 0 0 0 fs1) = .ok [⟨2, 3, 1, [0, 0, 1]⟩, ⟨3, -2, 1, [9, 11]⟩, ⟨2, 0, 0, []⟩] := by decide +kernel
+example : errOfF (mpf_div 0 1 2 fs1) = "div0" := by decide
+-- negative examples: `copy_u` without `|| rp == up` (the seeded defect C05_c_2: "u is chopped anyway"), r = u; no copy of v, r = v
+example : errOfF (mpf_divV { copyUIfOverlap := false } 0 0 1 fs1) = "ub:mpn_tdiv_qr operands overlap" := by decide +kernel
+example : errOfF (mpf_divV { copyV := false } 1 0 1 fs1) = "ub:mpn_tdiv_qr operands overlap" := by decide +kernel
 
 end Mpir.AliasMem
